@@ -128,7 +128,16 @@ func (r *run) judgeSuccessDespiteFault(o outcome, cancels []cancelEv, panics []p
 	if len(panics) > 1 && len(cancels) == 0 && !ctxEndedInRun && !p.hasReducer() {
 		for _, pe := range panics {
 			if pe.Stamp < o.Ret {
-				r.viol("C10/outcome/panic-lost/several-user-panics", fmt.Sprintf("%d user functions panicked (the first by %s) before the call returned, nothing else happened, yet %s returned %s",
+				key := "C10/outcome/panic-lost/several-user-panics"
+				for _, q := range panics {
+					if strings.HasPrefix(q.By, roleGen) {
+						// a class of its own: the generator's hand-over of its panic is not ordered before
+						// the close of the collector (findings/C10-panic-lost-between-cas-and-send.md)
+						key += "/one-of-them-by-the-generator"
+						break
+					}
+				}
+				r.viol(key, fmt.Sprintf("%d user functions panicked (the first by %s) before the call returned, nothing else happened, yet %s returned %s",
 					len(panics), pe.By, p.API, o.String()), o)
 				break
 			}
